@@ -377,6 +377,18 @@ def main():
                             mismatches.append((f"trace mismatch [{bname}]: impl={t} model={mtr}", line))
     judge(cases, outs, builds_for_loop, model_rows)
 
+    # ---- 4a'. extraction cross-check: a sample of the cases evaluated inside Coq (vm_compute) against the extracted driver
+    vm_info = {}
+    if P.get("vmcheck") and okm and model_rows is not None:
+        import vmcheck
+        vm = vmcheck.crosscheck(pid, cases, model_rows, max_cases=(P.get("vm_quick", 60) if tier == "quick" else P.get("vm_thorough", 600)))
+        vm_info = dict(vm_compute_cases=vm["evaluated"], vm_compute_mismatches=len(vm["mismatches"]))
+        if vm["error"]:
+            broken.append(("correspondence", "vm_compute cross-check of the extracted model did not run", vm["error"][-500:]))
+        elif vm["mismatches"]:
+            broken.append(("correspondence", f"extracted model differs from vm_compute on {len(vm['mismatches'])} cases", vm["mismatches"][0]))
+        log(f"vm_compute cross-check: {vm_info}")
+
     # ---- 4a. emulated NEON / simd128 builds (thorough tier): the aarch64 / wasm32 code of /repo's working tree,
     # compiled for this host with the vendor intrinsics replaced by harness/emu/*.rs, against the model's Neon / Simd128 backends
     emu_info = {}
@@ -519,6 +531,7 @@ def main():
     if chk:
         coverage.update(coqchk_ok=chk["ok"], coqchk_axioms=chk["axioms"], coqchk_wall_s=round(chk["wall"]))
     coverage.update(emu_info)
+    coverage.update(vm_info)
     if conc_info:
         coverage.update(conc_info)
     coverage.update(P.get("extra_coverage", lambda: {})())
